@@ -67,7 +67,10 @@ var c18Formats = []string{"%d", "x%dy", "", "%s", "%05d", "100%%_%d", "%d%%", "a
 	// long texts (identifier limits of a server are not the pool's business)
 	strings.Repeat("p", 253) + "_%d", strings.Repeat("long prefix ", 60) + "%d" + strings.Repeat("s", 40),
 	// literal text made of the verb's own characters next to the verb
-	"stmt_id%d", "d%dd", "%%d%d", "%d%%d"}
+	"stmt_id%d", "d%dd", "%%d%d", "%d%%d",
+	// formats that differ by digits behind the verb, used by different
+	// pools of one process: (format, id) pairs whose concatenations coincide
+	"%d1", "x%d", "x%d1", "%d0"}
 
 const (
 	c18Acq = iota
@@ -783,7 +786,7 @@ func c18Gen(seed int64, i int) c18Case {
 
 func runC18(c *Ctx) {
 	r := c.R
-	r.Rule = "seeded concurrent histories (<= 2k ops) of Acquire / Release / second Release by the owner / Release(nil) / hand-over of a held name through a channel, on a fresh pool each, over 1..64 goroutines, 0-3 yields between steps, GOMAXPROCS 1..16, optional side goroutine forcing runtime.GC(), formats %d, x%dy, \"\", %s, %05d, 100%%_%d, %d%%, a%%b%3dc, n%-4d|, %+d, a 253-byte prefix + _%d, a 720-byte prefix + %d + 40-byte suffix, stmt_id%d, d%dd, %%d%d, %d%%d; 4 of 5 histories are stamped and monitored (porcupine per id + holder map), 1 of 5 runs bare for the race detector; non-trivial = a monitored history in which an id was acquired again while other names were held; distinct = (generator parameters, observed interleaving hash)"
+	r.Rule = "seeded concurrent histories (<= 2k ops) of Acquire / Release / second Release by the owner / Release(nil) / hand-over of a held name through a channel, on a fresh pool each, over 1..64 goroutines, 0-3 yields between steps, GOMAXPROCS 1..16, optional side goroutine forcing runtime.GC(), formats %d, x%dy, \"\", %s, %05d, 100%%_%d, %d%%, a%%b%3dc, n%-4d|, %+d, a 253-byte prefix + _%d, a 720-byte prefix + %d + 40-byte suffix, stmt_id%d, d%dd, %%d%d, %d%%d, %d1, x%d, x%d1, %d0 (pools with all these formats live in one process); 4 of 5 histories are stamped and monitored (porcupine per id + holder map), 1 of 5 runs bare for the race detector; non-trivial = a monitored history in which an id was acquired again while other names were held; distinct = (generator parameters, observed interleaving hash)"
 	r.TrustedBase = []string{"github.com/anishathalye/porcupine v1.3.0", "held-bit model, holder-map monitor and strconv text oracle in harness/cmd/vworker/c18.go", "Go race detector"}
 	r.Assumptions = []string{
 		"a *Name is used by one goroutine at a time: a name changes hands only through a channel send; two goroutines releasing the same *Name with no ordering between them is misuse and is not generated",
